@@ -384,6 +384,9 @@ def mkfloat(v):
   return FloatTag(f.numerator, f.denominator)
 
 
+_MISSING = object()
+
+
 class PE(object):
   """One interpreter instance = one configuration point."""
 
@@ -401,6 +404,8 @@ class PE(object):
     self.cur_module = None
     self.cur_node = None
     self.stores = []      # (obj, attr, value) attribute stores in order
+    self.arm_log = None   # {(id(obj), attr): (obj, attr, old)} inside a
+                          # learning-phase arm (prims: smart_cond)
     self.trace_calls = []  # (callee name, loc)
     self.module_overrides = module_overrides or {}
     self.unsupported = []
@@ -678,6 +683,9 @@ class PE(object):
         f = Func(fn, owner.module, [], name, obj, owner)
         self.call_func(f, [val], {})
         return
+      if self.arm_log is not None and (id(obj), name) not in self.arm_log:
+        self.arm_log[(id(obj), name)] = (obj, name,
+                                         obj.attrs.get(name, _MISSING))
       obj.attrs[name] = val
       self.stores.append((obj, name, val))
     elif isinstance(obj, Tensor):
